@@ -1959,6 +1959,7 @@ Proof.
     pair_convergence (xp_L xp_pr_probe) xp_F false false xp_pr_probe 2 188 L' F'
       H1 H2 H3 H4 H5 H6 H7 H8 H9 H10 H11 H12 H13 H14 H15 H16 H17 H18 H19 H20 H21 H22 H23 H24 H25
       H26 H27 H28 H29 Hrun) as X.
+  clear Hrun.
   destruct X as (pr' & A & B & _ & D & E & _ & G & _); try xp_side.
   exists pr'. auto.
 Qed.
@@ -1974,6 +1975,7 @@ Proof.
     pair_convergence (xp_L xp_pr_repl) xp_F false false xp_pr_repl 2 188 L' F'
       H1 H2 H3 H4 H5 H6 H7 H8 H9 H10 H11 H12 H13 H14 H15 H16 H17 H18 H19 H20 H21 H22 H23 H24 H25
       H26 H27 H28 H29 Hrun) as X.
+  clear Hrun.
   destruct X as (pr' & A & B & _ & D & E & _ & G & _); try xp_side.
   exists pr'. auto.
 Qed.
